@@ -451,6 +451,30 @@ def rule_string_guard(ctx, rid="R12.5"):
     return r
 
 
+def rule_checks_latest_wins(ctx, rid="R12.13"):
+    """`checker.checks(name, raises)(fn)` makes (fn, raises) the entry for that name: a custom function registered under a name the
+    checker already knows replaces the built-in one, the same function registered again brings its new `raises`, and the empty
+    string is a name like any other.  Decided by sa/rules/fmtsem.py checks_eval."""
+    prog = ctx.prog
+    f = find_method(prog, "_format.FormatChecker", "checks")
+    r = ctx.rule(rid, "registering under a format name replaces whatever entry the name had (function and raises), for every name incl. the empty one", floor=1)
+    from .fmtsem import checks_eval
+    try:
+        sem = checks_eval(prog)
+    except RecursionError:
+        sem = None
+    if sem is None:
+        r.ok(site(f), "NOT DECIDED: FormatChecker.checks is outside the evaluated fragment")
+        r.note(site(f), "%s not decided" % rid)
+    elif sem.get("raises"):
+        r.fail("%s|checks|raises" % f.qual, site(f), "on the registration scenarios the checker %s" % sem["raises"])
+    elif sem["latest-wins"]:
+        r.fail("%s|checks|latest-wins" % f.qual, site(f), sem["latest-wins"])
+    else:
+        r.ok(site(f), "re-registration, same-function re-registration with another raises, the empty name and a built-in name overridden on one object: the entry is the latest (fn, raises)")
+    return r
+
+
 def rule_registration(ctx, rid="R12.6"):
     """_checks_drafts registers under each non-empty draft name on that draft's checker and class-wide under the newest
     name, forwarding raises everywhere."""
@@ -697,6 +721,7 @@ def run(ctx):
     rule_conforms(ctx)
     rule_string_guard(ctx)
     rule_registration(ctx)
+    rule_checks_latest_wins(ctx)
     rule_single_pass(ctx)
     # R12.8: "without a format checker format has no effect" also where the library validates on the caller's behalf: check_schema
     # (and so jsonschema.validate) checks the schema against the metaschema with no format checker
